@@ -270,7 +270,7 @@ func parseNumber[D []byte | string](d D, neg, sepallowed bool) (Decimal, error) 
 			cansgn = false
 			sawdot = true
 		case c == 'E' || c == 'e':
-			if !sawdig {
+			if !sawdig || !caneof {
 				return Decimal{}, parseNumberSyntaxError{}
 			}
 
@@ -352,7 +352,7 @@ func parseNumber[D []byte | string](d D, neg, sepallowed bool) (Decimal, error) 
 			cansgn = false
 			sawdot = true
 		case c == 'E' || c == 'e':
-			if !sawdig || sawexp {
+			if !sawdig || sawexp || !caneof {
 				return Decimal{}, parseNumberSyntaxError{}
 			}
 
